@@ -1128,7 +1128,7 @@ func init() {
 			NotDecided:  []string{"the substitution itself in BuildRequestURL.Build: placeholder grammar, escaping, query parameters", "that Match on the built path returns the same route and values (value-level string round trip through net/url)"},
 			Assumptions: []string{"Go map assignment overwrites (last writer wins)"},
 		},
-		Rules: []ruleFn{{"C15-INDEX", ruleC15Index}, {"C15-MEMO", ruleC15Memo}, {"C15-ESCAPE", ruleC15Escape}, {"C01-SPACE", ruleC01Space}, {"C11-ENC", ruleC11Enc}},
+		Rules: []ruleFn{{"C15-INDEX", ruleC15Index}, {"C15-MEMO", ruleC15Memo}, {"C15-ESCAPE", ruleC15Escape}, {"C15-SCAN", ruleC15Scan}, {"C01-SPACE", ruleC01Space}, {"C11-ENC", ruleC11Enc}},
 	})
 	register(&property{
 		Meta: propertyMeta{
@@ -1692,4 +1692,64 @@ func ruleC15Escape(r *Run) {
 		})
 	}
 	r.Exists(rule, "stores into url.URL.Path", token.NoPos, n >= 1, fmt.Sprintf("%d store(s) into url.URL.Path in the root package", n))
+}
+
+// ---------------------------------------------------------------------------
+// C15-SCAN: the builder and registration find placeholders with the same scanner
+
+// ruleC15Scan: what counts as one "{name:regex}" placeholder is defined once, by the package's varRegex, and
+// registration (parseParamRoute) cuts the pattern with it. A built URL is routed back only if the builder cuts
+// the same template into the same placeholders; a hand-written scanner ("from '{' to the next '}'") disagrees on
+// every variable whose own regex contains braces ({n,m} quantifiers, \p{L}) and leaves pattern text in the URL.
+// Checked: Build — or a root-package function it reaches by static calls — applies a Find* method of varRegex to
+// text that comes from the builder's path template; so does parseParamRoute for the route path.
+func ruleC15Scan(r *Run) {
+	w := r.W
+	rule := "C15-SCAN"
+	r.Floor(rule, 2)
+	vr := w.Global("rux", "varRegex")
+	scans := func(root *ssa.Function, src func(ssa.Value) bool) (bool, token.Pos) {
+		seen := map[*ssa.Function]bool{}
+		found := false
+		var pos token.Pos
+		var walk func(f *ssa.Function, d int)
+		walk = func(f *ssa.Function, d int) {
+			if f == nil || seen[f] || f.Blocks == nil || d > 3 || !w.InModule(f) {
+				return
+			}
+			seen[f] = true
+			eachInstr(f, func(in ssa.Instruction) {
+				c, ok := in.(*ssa.Call)
+				if !ok {
+					return
+				}
+				if strings.HasPrefix(calleeName(c), "(*regexp.Regexp).Find") && len(c.Call.Args) >= 2 {
+					if ld, isLd := c.Call.Args[0].(*ssa.UnOp); isLd && ld.X == ssa.Value(vr) {
+						if f != root || flowsFromDeep(c.Call.Args[1], src) {
+							found, pos = true, w.InstrPos(in)
+						}
+					}
+				}
+				walk(staticCallee(c), d+1)
+			})
+			for _, a := range f.AnonFuncs {
+				walk(a, d+1)
+			}
+		}
+		walk(root, 0)
+		return found, pos
+	}
+	build := w.Fn("rux", "BuildRequestURL.Build")
+	pathF := w.Field("rux", "BuildRequestURL", "path")
+	okB, posB := scans(build, func(y ssa.Value) bool { return isLoadOfField(y, pathF) })
+	if !okB {
+		posB = build.Pos()
+	}
+	r.Check(rule, FuncName(build)+":placeholders found by varRegex", posB, okB, map[bool]string{true: "the builder cuts its path template into placeholders with the package's varRegex, the scanner registration uses", false: "the builder does not find the placeholders of its template with varRegex: a home-made scanner and registration disagree on variables whose regex contains braces ({n,m}, \\p{L}) — pattern text stays in the built URL and it is not routed back"}[okB])
+	tm := newTierModel(w)
+	okP, posP := scans(tm.parse, func(y ssa.Value) bool { return isLoadOfField(y, tm.path) })
+	if !okP {
+		posP = tm.parse.Pos()
+	}
+	r.Check(rule, FuncName(tm.parse)+":placeholders found by varRegex", posP, okP, map[bool]string{true: "registration cuts the route path into placeholders with varRegex", false: "registration does not find the placeholders of the route path with varRegex"}[okP])
 }
